@@ -269,12 +269,12 @@ func HarnessC10MatrixAlias() {
 		errs := verifLintNode(doc, verifRulesNoDeprecated())
 		verifMapOrder(false)
 		verifMonitorGlobals(false)
-		verifReach("linted")
 		for _, e := range errs {
 			// job c uses only defined names: whatever job b's matrix was, it stays clean
 			verifCheckf(verifNot(verifIsLine(e, doc, "c")), "matrix-typing-changed-a-shared-type", e.Message)
 		}
 	}
+	verifReach("linted")
 }
 
 // verifIsLine: the diagnostic sits in the steps of the job with this id.
